@@ -55,6 +55,15 @@ def check_case(ctx, case):
             ctx.note("product-starts-elsewhere")
         if not isinstance(prod, impl.CircularRecord):
             ctx.fail("the product is not a circular record", case)
+    if len(case["mods"]) == 1 and f[0] == "ok":
+        # the one-module call spelt with the parameter's name
+        v1, m1, _o = impl.build_entities(op[3], op[4])
+        try:
+            p1 = v1.assemble(module=m1[0], id="k1", name="k1")
+            if str(p1.seq) != str(prod.seq):
+                ctx.fail("assemble(module=m) gives another product than assemble(m)", case)
+        except Exception as e:  # noqa
+            ctx.fail("assemble(module=m) raises {} where assemble(m) returns the product".format(type(e).__name__), case)
     ctx.note("geom:{}".format(gen.geom(asm.enzyme(case["enz"]))[1:]))
     ctx.note("chain={}".format(len(case["mods"])))
     ctx.case({k: v for k, v in case.items() if k != "info"}, nontrivial=f[0] == "ok")
@@ -71,10 +80,17 @@ def check_case(ctx, case):
 def run(ctx):
     rng = ctx.rng
     n = ctx.budget(500, 30000)
+    long_done = 0
     for enz in asm.pick_enzymes(rng, n):
         # one case in three closes on an overhang that is the reverse complement of an inner junction, or its own
         closing = rng.choice([None, None, None, None, "rc", "pal"])
         g = asm.gen_wellformed(rng, enz, closing=closing)
+        if long_done < (1 if ctx.tier == "quick" else 5) and abs(enz.ovhg) >= 4:
+            # a long chain now and then (a 30-part pathway): nothing in the procedure counts the parts
+            g2 = asm.gen_wellformed(rng, enz, nmods=rng.randint(28, 34))
+            if g2 is not None:
+                g, long_done = g2, long_done + 1
+                ctx.note("chain-of-thirty")
         if g is None:
             continue
         case, info = g
